@@ -129,66 +129,70 @@ attributes in another order). -/
 theorem mask_state_view (sh : List Nat) (hne : sh.isEmpty = false) (m : List Bool)
     (hm : m.length = prod sh) (v : View) (hv : v.posStep = true) :
     Impl.mask sh (.maskSame m) v = Spec.viewOfRes (Impl.mask sh (.maskSame m) .none) v :=
-  Lemmas.C04.mask_view sh (.maskSame m) v (by simp [Spec.stateWf, hm, hne]) hv rfl
+  Lemmas.C04.mask_view sh (.maskSame m) v (by simp [Spec.stateWf, hm, hne]) hv
 
 theorem mask_state_general_view (sh : List Nat) (hne : sh.isEmpty = false) (axes msh : List Nat)
     (m : List Bool) (v : View) (hv : v.posStep = true) :
     Impl.mask sh (.maskAxes axes msh m) v = Spec.viewOfRes (Impl.mask sh (.maskAxes axes msh m) .none) v :=
-  Lemmas.C04.mask_view sh (.maskAxes axes msh m) v (by simp [Spec.stateWf, hne]) hv rfl
+  Lemmas.C04.mask_view sh (.maskAxes axes msh m) v (by simp [Spec.stateWf, hne]) hv
 
 /-- **`ElementSubsetState`**. -/
 theorem element_state_view (sh : List Nat) (inds : List Int) (hi : inds.all (inAxis (prod sh)) = true)
     (v : View) (hv : v.posStep = true) :
     Impl.mask sh (.element inds) v = Spec.viewOfRes (Impl.mask sh (.element inds) .none) v :=
-  Lemmas.C04.mask_view sh (.element inds) v (by simpa [Spec.stateWf] using hi) hv rfl
+  Lemmas.C04.mask_view sh (.element inds) v (by simpa [Spec.stateWf] using hi) hv
 
 /-- **Every selection class and every Boolean combination** (and / or / xor / invert / many-way or,
 to any depth) of: the empty selection, elementwise tests of one or two attributes of any kind
 (range, multi-range, inequality, category, categorical ROI, ROI on non-pixel attributes), the pixel
-ROI shortcut, slice states (own, pixel-aligned, unrelated), mask states, element states, and any
-class that is an elementwise function of `data[att, view]`:
-`get_mask(state, view) = get_mask(state)[view]` — same shape, same values — for every positive-step
-view. -/
+ROI shortcut — also when the region test runs chunk by chunk (`pretransform`, `Projected3dROI`; repaired
+`C04h`) —, slice states (own, pixel-aligned, unrelated), mask states, element states, the two
+looping categorical classes (repaired `C04i`), and any class that is an elementwise function of
+`data[att, view]`:
+`get_mask(state, view) = get_mask(state)[view]` — same shape, same values — for **every** well-formed
+selection tree and every positive-step view.  No hypothesis on the leaves is left. -/
 theorem state_view (sh : List Nat) (st : State) (v : View) (hw : Spec.stateWf sh st = true)
-    (hp : st.plain = true) (hv : v.posStep = true) :
+    (hv : v.posStep = true) :
     Impl.mask sh st v = Spec.viewOfRes (Impl.mask sh st .none) v :=
-  Lemmas.C04.mask_view sh st v hw hv (Lemmas.C04.plain_quiet sh v st hp)
+  Lemmas.C04.mask_view sh st v hw hv
 
 /-- … pointwise. -/
 theorem state_view_values (sh : List Nat) (st : State) (v : View) (hw : Spec.stateWf sh st = true)
-    (hp : st.plain = true) (hv : v.posStep = true) :
+    (hv : v.posStep = true) :
     Impl.mask sh st v = gather sh (Spec.holds sh st) v :=
-  Lemmas.C04.mask_gather sh v hv st hw (Lemmas.C04.plain_quiet sh v st hp)
+  Lemmas.C04.mask_gather sh v hv st hw
 
-/-- FULL STATEMENT (false for the tree under test, see the witnesses below): `state_view` without
-`st.plain`.  **Partial form**: selections that contain a chunked ROI test (`pretransform`,
-`Projected3dROI`) or one of the two 1-d-only categorical classes are right exactly under the decidable
-hypothesis `quiet`: the view does not select a single element of a chunked ROI test (known finding
-`C04h`) and the result of a 1-d-only class is 1-d (known finding `C04i`). -/
-theorem state_view_partial (sh : List Nat) (st : State) (v : View) (hw : Spec.stateWf sh st = true)
-    (hv : v.posStep = true) (hq : st.quiet sh v = true) :
-    Impl.mask sh st v = Spec.viewOfRes (Impl.mask sh st .none) v :=
-  Lemmas.C04.mask_view sh st v hw hv hq
+example : Spec.stateWf [2, 3] (.and (.roiChunked [1, 0] fun c => c == [2, 1]) (.xor (.loop1d false fun c => c == [1, 1])
+    (.inv (.sliceSt [.slice (some 1) none none, .slice none none (some 2)])))) = true := by decide
 
-example : Spec.stateWf [2, 3] (.and (.roiChunked [1, 0] fun c => c == [2, 1]) (.inv (.sliceSt
-    [.slice (some 1) none none, .slice none none (some 2)]))) = true ∧
-    State.quiet [2, 3] (.basic [.int 1]) (.and (.roiChunked [1, 0] fun c => c == [2, 1]) (.inv (.sliceSt
-    [.slice (some 1) none none, .slice none none (some 2)]))) = true := by decide
+example : Impl.mask [2, 3] (.and (.roiChunked [1, 0] fun c => c == [2, 1]) (.inv (.loop1d false fun c => c == [0, 0])))
+    (.basic [.int 1, .int 2]) = .ok ⟨[], [true]⟩ := by rfl
 
-/-- Witness `C04h`: a chunked ROI test under a view that selects a single element raises
-(`iterate_chunks(())`) although the full-size mask indexed by the view exists. -/
-theorem chunked_roi_scalar_view_raises :
-    (match Impl.mask [2] (.roiChunked [0] fun _ => true) (.basic [.int 0]) with
+/-- Witness of the old behaviour (`C04h`, pinned tree): a chunked ROI test under a view that selects a
+single element raised (`iterate_chunks(())`) although the full-size mask indexed by the view exists;
+the repaired code returns exactly that element. -/
+theorem chunked_roi_scalar_view_pinned_raises :
+    (match Pinned.mask [2] (.roiChunked [0] fun _ => true) (.basic [.int 0]) with
      | .error .indexError => true | _ => false) = true ∧
-    (match Spec.viewOfRes (Impl.mask [2] (.roiChunked [0] fun _ => true) .none) (.basic [.int 0]) with
+    (match Spec.viewOfRes (Pinned.mask [2] (.roiChunked [0] fun _ => true) .none) (.basic [.int 0]) with
+     | .ok a => a.shape == [] && a.data == [true] | _ => false) = true ∧
+    (match Impl.mask [2] (.roiChunked [0] fun _ => true) (.basic [.int 0]) with
      | .ok a => a.shape == [] && a.data == [true] | _ => false) = true := by decide
 
-/-- Witness `C04i`: a 1-d-only categorical class under a view that selects a single element raises. -/
-theorem loop1d_scalar_view_raises :
-    (match Impl.mask [2] (.loop1d false fun _ => true) (.basic [.int 0]) with
+/-- Witness of the old behaviour (`C04i`, pinned tree): a looping categorical class under a view that
+selects a single element, or whose result has two axes, raised; the repaired code returns the full
+mask indexed by the view. -/
+theorem loop1d_scalar_view_pinned_raises :
+    (match Pinned.mask [2] (.loop1d false fun _ => true) (.basic [.int 0]) with
      | .error _ => true | _ => false) = true ∧
-    (match Spec.viewOfRes (Impl.mask [2] (.loop1d false fun _ => true) .none) (.basic [.int 0]) with
-     | .ok a => a.shape == [] && a.data == [true] | _ => false) = true := by decide
+    (match Spec.viewOfRes (Pinned.mask [2] (.loop1d false fun _ => true) .none) (.basic [.int 0]) with
+     | .ok a => a.shape == [] && a.data == [true] | _ => false) = true ∧
+    (match Impl.mask [2] (.loop1d false fun _ => true) (.basic [.int 0]) with
+     | .ok a => a.shape == [] && a.data == [true] | _ => false) = true ∧
+    (match Pinned.mask [2] (.loop1d false fun _ => true) (.arrays [1, 2] [.arr [1, 0]]) with
+     | .error _ => true | _ => false) = true ∧
+    (match Impl.mask [2] (.loop1d false fun i => i == [1]) (.arrays [1, 2] [.arr [1, 0]]) with
+     | .ok a => a.shape == [1, 2] && a.data == [true, false] | _ => false) = true := by decide
 
 /-! ## `IndexedData` -/
 
@@ -230,13 +234,13 @@ theorem indexed_pixel (psh : List Nat) (ix : List (Option Nat)) (k : Nat) (v : V
   | ok ov => exact Lemmas.C04.attr_gather psh _ rfl ov
 
 /-- **`indexed_mask`**: `IndexedData.get_mask(state, view)` equals `parent_mask[indices][view]` for every
-selection of `state_view_partial`. -/
+selection of `state_view` (every well-formed selection tree). -/
 theorem indexed_mask (psh : List Nat) (ix : List (Option Nat)) (st : State) (v : View)
-    (hix : ixValid psh ix = true) (hw : Spec.stateWf psh st = true) (hp : st.plain = true)
+    (hix : ixValid psh ix = true) (hw : Spec.stateWf psh st = true)
     (hv : v.posStep = true) (hok : ∃ sp, viewPoints (reducedShape psh ix) v = .ok sp) :
     Impl.indexedMask psh ix st v = Spec.indexedViewOf (tabulate psh (Spec.holds psh st)) ix v ∧
     Impl.mask psh st .none = .ok (tabulate psh (Spec.holds psh st)) := by
-  refine ⟨?_, Lemmas.C04.mask_gather psh .none rfl st hw (Lemmas.C04.plain_quiet psh .none st hp)⟩
+  refine ⟨?_, Lemmas.C04.mask_gather psh .none rfl st hw⟩
   unfold Impl.indexedMask
   have := Lemmas.C04.indexed_compose psh ix (Spec.holds psh st) v hix hok
   rw [← this]
@@ -244,7 +248,6 @@ theorem indexed_mask (psh : List Nat) (ix : List (Option Nat)) (st : State) (v :
   | error e => rfl
   | ok ov =>
     exact Lemmas.C04.mask_gather psh ov (Lemmas.C04.toOriginalView_posStep hv hov) st hw
-      (Lemmas.C04.plain_quiet psh ov st hp)
 
 /-- **After its indices are changed** (`IndexedData.indices = new`, accepted only when the `None`
 positions are unchanged) the reduced dataset has the same shape and `indexed_get` holds with the new
